@@ -28,10 +28,13 @@ import (
 	"testing"
 	"time"
 
+	"cosmossdk.io/log"
 	storetypes "cosmossdk.io/store/types"
 	abci "github.com/cometbft/cometbft/abci/types"
 	cmtproto "github.com/cometbft/cometbft/proto/tendermint/types"
 	cmttypes "github.com/cometbft/cometbft/types"
+	dbm "github.com/cosmos/cosmos-db"
+	"github.com/cosmos/cosmos-sdk/baseapp"
 	"github.com/cosmos/cosmos-sdk/crypto/keys/secp256k1"
 	sdk "github.com/cosmos/cosmos-sdk/types"
 	authtypes "github.com/cosmos/cosmos-sdk/x/auth/types"
@@ -133,7 +136,10 @@ var c20Keys = map[*tibctesting.TestChain]string{}
 
 // c20Replay builds a fresh application from the recorded genesis inputs, applies the recorded
 // direct writes and blocks, and returns the digest of every block's response
-func c20Replay(t *testing.T, lg *c20Log) ([]string, error) {
+// restartEvery > 0: after every restartEvery-th block the application object is thrown away and a
+// new one is started on the same database, as a node restart does: nothing a state transition
+// needs may live in process memory only
+func c20Replay(t *testing.T, lg *c20Log, restartEvery int) ([]string, error) {
 	var vp cmtproto.ValidatorSet
 	if err := vp.Unmarshal(lg.ValSet); err != nil {
 		return nil, err
@@ -151,7 +157,19 @@ func c20Replay(t *testing.T, lg *c20Log) ([]string, error) {
 		genAccs = append(genAccs, acc)
 		bals = append(bals, banktypes.Balance{Address: acc.GetAddress().String(), Coins: sdk.NewCoins(sdk.NewCoin(sdk.DefaultBondDenom, amount))})
 	}
+	var db dbm.DB
+	newApp := func() *simapp.SimApp {
+		return simapp.NewSimApp(log.NewNopLogger(), db, nil, true, simapp.EmptyAppOptions{}, baseapp.SetChainID(lg.ChainID))
+	}
+	saveInit := tibctesting.DefaultTestingAppInit
+	tibctesting.DefaultTestingAppInit = func(chainID string) (*simapp.SimApp, map[string]json.RawMessage) {
+		db = dbm.NewMemDB()
+		a := newApp()
+		return a, simapp.NewDefaultGenesisState(a.AppCodec())
+	}
 	app := tibctesting.SetupWithGenesisValSet(t, valSet, genAccs, lg.ChainID, sdk.DefaultPowerReduction, bals...)
+	tibctesting.DefaultTestingAppInit = saveInit
+	nblk := 0
 	// the genesis block, as NewTestChainWithValSet commits it
 	if _, err := app.FinalizeBlock(&abci.RequestFinalizeBlock{Height: 1, Time: time.Unix(0, lg.Block1).UTC(), NextValidatorsHash: valSet.Hash()}); err != nil {
 		return nil, err
@@ -178,6 +196,10 @@ func c20Replay(t *testing.T, lg *c20Log) ([]string, error) {
 			}
 			if _, err := app.Commit(); err != nil {
 				return nil, err
+			}
+			nblk++
+			if restartEvery > 0 && nblk%restartEvery == 0 {
+				app = newApp()
 			}
 			continue
 		}
@@ -402,6 +424,53 @@ func c20EvmHistory(t *testing.T, nBsc, nEth int) (accepted, rejected int) {
 	return
 }
 
+// c20Discarded: keeper write entry points are called on a branch of the state that is then thrown
+// away — what x/gov does when a later message of a passed proposal fails, what BaseApp does for a
+// transaction whose later message fails — interleaved with traffic that depends on the same state.
+// The discarded calls are NOT recorded, so the twin never sees them: any trace they leave in the
+// original process (an in-memory cache, a package variable) shows up as a divergence.
+func c20Discarded(t *testing.T) {
+	h := newNetH(t, 3)
+	mesh(h)
+	A, B, C := h.names[0], h.names[1], h.names[2]
+	discard := func(i int, f func(ctx sdk.Context)) {
+		h.coord.UpdateTimeForChain(h.chains[i])
+		ctx, _ := h.chains[i].GetContext().CacheContext()
+		f(ctx.WithEventManager(sdk.NewEventManager()))
+		// the branch is dropped
+	}
+	k1 := h.chains[1].App.TIBCKeeper
+	h.SetRules(1, []string{A + "," + C + ",nosuchport"})
+	discard(1, func(ctx sdk.Context) { _ = k1.RoutingKeeper.SetRoutingRules(ctx, []string{"*,*,*"}) })
+	p1 := h.sendOK(0, Pkt{1, A, C, B, "tibcmock", "via-relay-1"})
+	h.hopRecv(1, 0, p1) // the whitelist in force does not allow it: error acknowledgement
+	discard(1, func(ctx sdk.Context) { _ = k1.RoutingKeeper.SetRoutingRules(ctx, nil) })
+	h.SetRules(1, []string{"*,*,*"})
+	discard(1, func(ctx sdk.Context) { _ = k1.RoutingKeeper.SetRoutingRules(ctx, []string{"a,b,c"}) })
+	p2 := h.sendOK(0, Pkt{2, A, C, B, "tibcmock", "via-relay-2"})
+	h.hopRecv(1, 0, p2) // allowed: forwarded
+	// relayer registry and client registry
+	discard(1, func(ctx sdk.Context) {
+		k1.ClientKeeper.RegisterRelayers(ctx, A, []string{h.chains[1].SenderAccounts[2].SenderAccount.GetAddress().String()})
+	})
+	h.UpdateClient(1, 0)
+	discard(1, func(ctx sdk.Context) { k1.ClientKeeper.SetChainName(ctx, "someoneelse") })
+	p3 := h.sendOK(0, Pkt{3, A, B, "", "tibcmock", "direct-3"})
+	h.hopRecv(1, 0, p3)
+	// packet keeper
+	discard(0, func(ctx sdk.Context) {
+		_ = h.chains[0].App.TIBCKeeper.PacketKeeper.SendPacket(ctx, Pkt{4, A, B, "", "tibcmock", "never-sent"}.real())
+	})
+	p4 := h.sendOK(0, Pkt{4, A, B, "", "tibcmock", "really-sent-4"})
+	h.hopRecv(1, 0, p4)
+	h.hopAck(0, 1, p3, mockAck)
+	discard(0, func(ctx sdk.Context) {
+		_ = h.chains[0].App.TIBCKeeper.PacketKeeper.CleanPacket(ctx, CPkt{3, "", B, ""}.real())
+	})
+	h.hopAck(0, 1, p4, mockAck)
+	h.Clean(0, CPkt{4, "", B, ""})
+}
+
 // ---- the check ------------------------------------------------------------------------------------
 
 type c20Hist struct {
@@ -482,6 +551,7 @@ func c20Histories(t *testing.T) []c20Hist {
 			randomTokenHistory(h, newTokOracle(h), newRand(int64(k)*104729+20), tokCfg{Ops: 40, NFT: true, MT: true, BadRecv: 20, Relay: k%2 == 1})
 		}})
 	}
+	hs = append(hs, c20Hist{"discarded-branches", func(t *testing.T) { c20Discarded(t) }})
 	hs = append(hs, c20Hist{"evm-clients-recorded-mainnet-headers", func(t *testing.T) {
 		a, r := c20EvmHistory(t, tierN(40, 300), tierN(1, 4))
 		if a == 0 || r == 0 {
@@ -585,7 +655,7 @@ func TestC20(t *testing.T) {
 				rep.Count("direct-write:" + e.Kind)
 			}
 		}
-		twin, err := c20Replay(t, lg)
+		twin, err := c20Replay(t, lg, 4)
 		if err != nil {
 			rep.Fail("C20:replay-broken", "the recorded history could not be replayed: "+err.Error(), map[string]any{"history": histOf(idx), "chain": lg.ChainID})
 			continue
@@ -669,7 +739,7 @@ func TestC20Child(t *testing.T) {
 	}
 	var out [][]string
 	for _, lg := range logs {
-		d, err := c20Replay(t, lg)
+		d, err := c20Replay(t, lg, 0)
 		if err != nil {
 			t.Fatalf("%s: %v", lg.ChainID, err)
 		}
